@@ -970,12 +970,13 @@ func Explore(prog *ssa.Program, pkg *ssa.Package, fname string, cfg Config) *Run
 	var statsMu sync.Mutex
 	for w := 0; w < cfg.Workers; w++ {
 		wg.Add(1)
+		w := w
 		go func() {
 			defer wg.Done()
 			solver := smt.NewZ3(cfg.QueryTimeoutMS)
 			defer solver.Close()
-			if lp := os.Getenv("SYMGO_SMTLOG"); lp != "" && cfg.Workers == 1 {
-				if f, err := os.Create(lp); err == nil {
+			if lp := os.Getenv("SYMGO_SMTLOG"); lp != "" {
+				if f, err := os.Create(fmt.Sprintf("%s.%d", lp, w)); err == nil {
 					solver.Log = f
 					defer f.Close()
 				}
